@@ -35,6 +35,37 @@ pub fn load_case(c: &ScanCase) -> Result<(loader::Loaded, String), Verdict> {
     Ok((l, text))
 }
 
+/// Differential of the regular-expression engine alone: every terminal pattern of the case, as a
+/// one-terminal scanner without lookahead, against the reference matcher on the suffixes of the
+/// input.  Some(description) = scnr2 (the dependency) matches the pattern differently from the
+/// regex semantics; such a token difference is not caused by anything in /repo.
+pub fn scnr2_pattern_defect(c: &ScanCase, input: &str) -> Option<String> {
+    use super::scan::{SMode, STerm};
+    let chars: Vec<char> = input.chars().collect();
+    let mut byte_of: Vec<usize> = input.char_indices().map(|(i, _)| i).collect();
+    byte_of.push(input.len());
+    for t in &c.terms {
+        let single = ScanCase {
+            terms: vec![STerm { rx: t.rx.clone(), quote: t.quote, lookahead: None, states: vec![], extra_states: vec![] }],
+            modes: vec![SMode { name: "INITIAL".into(), auto_nl_off: true, auto_ws_off: true, allow_unmatched: true, ..Default::default() }],
+            lr: false,
+            inputs: vec![],
+            marker: None,
+        };
+        let Ok((l, _)) = load_case(&single) else { continue };
+        for p in 0..chars.len() {
+            let suffix: String = chars[p..].iter().collect();
+            let want = t.rx.ends_at(&chars, p).into_iter().filter(|e| *e > p).max().map(|e| byte_of[e] - byte_of[p]);
+            let Ok(toks) = interp::drain(&l, &suffix, 1) else { continue };
+            let got = toks.first().filter(|k| k.ty == 5 && k.start == 0).map(|k| k.end);
+            if got != want {
+                return Some(format!("pattern {} on {suffix:?}: scnr2 matches {got:?} bytes at the start, the regex semantics give {want:?}", t.rx.print()));
+            }
+        }
+    }
+    None
+}
+
 impl Check for C13 {
     type Case = ScanCase;
     fn id(&self) -> &'static str {
@@ -66,7 +97,20 @@ impl Check for C13 {
                 };
                 let got: Vec<(u16, usize, usize)> = got.iter().filter(|t| t.ty != 0).map(|t| (t.ty, t.start, t.end)).collect();
                 if got != want {
-                    let sig = if k == 1 { "C13:tokens_differ_from_documented_rules" } else { "C13:tokens_depend_on_lookahead_size" };
+                    // recorded finding (scnr2, outside /repo): some patterns are matched differently
+                    // from the regex semantics, e.g. `b.|b.a` does not match "ba"; decided by running
+                    // every pattern of the case alone against the reference matcher
+                    let defect = scnr2_pattern_defect(c, input);
+                    let sig = if defect.is_some() {
+                        "C13:scnr2_matches_a_pattern_differently_from_the_regex_semantics"
+                    } else if k == 1 {
+                        "C13:tokens_differ_from_documented_rules"
+                    } else {
+                        "C13:tokens_depend_on_lookahead_size"
+                    };
+                    if let Some(d) = &defect {
+                        return Verdict::Fail(sig.into(), format!("{d}\ninput {input:?}\n{text}"));
+                    }
                     return Verdict::Fail(sig.into(), format!("k={k} input {input:?}\nscanner:   {}\nreference: {}\n{text}", show_toks(&got, input), show_toks(&want, input)));
                 }
             }
